@@ -283,11 +283,59 @@ def run(ctx):
     programs = 0
     for _sec in (_sec_shortest, _sec_perp, _sec_iou, _sec_menger, _sec_rank, _sec_misc):
         programs += _sec(rc)
+    _sec_intwidth(rc)
     res.extra_coverage.update({"programs": programs, "disagreements_checked": len(res.findings)})
     res.assumptions += ["real-number reading of the formulas", "points are rows (x, y); arrays of points are treated row-wise",
+                        "N-int: integer-typed inputs hold values of magnitude <= 2**29 in int64 arrays, fewer than 2**20 points",
                         "numpy element-wise / reduction semantics per kverif.npmodel"]
     res.not_decided += ["floating-point rounding", "behaviour at degenerate denominators (coincident Menger points, zero-length chord for the perpendicular distance)"]
     res.require_instances("C17 programs compared", programs, 11)
+
+
+# parameter shapes of the primitives (pt: one point (x, y); pts: rows of points; arr: a vector of values) - the rule instances of N-int
+INT_SHAPES = {
+    "menger.menger_curvature": {"f": "pt", "g": "pt", "h": "pt"},
+    "linear_fit.shortest_distance_points": {"p": "pts", "a": "pt", "b": "pt"},
+    "linear_fit.perpendicular_distance_points": {"pt": "pts", "start": "pt", "end": "pt"},
+    "linear_fit.perpendicular_distance": {"points": "pts"},
+    "knee_ranking.distances": {"point": "pt", "points": "pts"},
+    "knee_ranking.rect_overlap": {"amin": "pt", "amax": "pt", "bmin": "pt", "bmax": "pt"},
+    "knee_ranking.rect": {"p1": "pt", "p2": "pt"},
+    "knee_ranking.rank": {"array": "arr"},
+    "knee_ranking.distance_to_similarity": {"array": "arr"},
+    "postprocessing.triangle_area": {"p": "pts"},
+}
+
+
+def _sec_intwidth(rc: RuleCtx, rule: str = "N-int", table=None):
+    """With an integer-typed curve every + - * ** between integer operands is 64-bit integer arithmetic that wraps around
+    silently: the primitives must do their products in floating point (or keep the integer intermediates small)."""
+    from .. import intwidth as iw
+    res = rc.res
+    res.rule(rule, "no primitive computes, in integer arithmetic, an intermediate that can exceed 2**63 - 1 for integer inputs of magnitude <= 2**29 "
+                   "(magnitude analysis: float is contagious, a+b adds the bounds, a*b multiplies them, a**k raises them; package calls analysed in context)")
+    an = iw.Analyzer(rc.repo, rc.lk)
+    done = 0
+    for q, shapes in (table or INT_SHAPES).items():
+        fi = rc.func(q)
+        missing = [p for p in shapes if p not in fi.signature.positional]
+        if missing:
+            raise AnalysisError(f"{q}: parameter(s) {missing} of the N-int table no longer exist - shape not recognised")
+        n0 = len(an.findings)
+        an.function(fi, {p: iw.coord(s) for p, s in shapes.items()})
+        done += 1
+        if len(an.findings) == n0:
+            res.ok(rule, q, "every integer-kinded intermediate stays below 2**63 for 30-bit inputs (or the arithmetic is done in floating point)")
+    for f in an.findings:
+        res.violation(rule, f.fi.module, f.fi.name, f.node,
+                      f"{' -> '.join(f.chain)}: `{ast.unparse(f.node)[:90]}` is computed in integer arithmetic when the points come from an integer-typed array, "
+                      f"and can reach about 2**{f.v.mag.bit_length() - 1} for coordinates of magnitude 2**29: the int64 result wraps around silently",
+                      f"integer intermediate up to 2**{f.v.mag.bit_length() - 1}", "products of coordinate differences taken in floating point (float(), a float "
+                      "exponent, math.fabs, a float factor first) or bounded below 2**63", construct=f"integer width {f.fi.qualname}")
+    res.analysed["intwidth"] = {"functions": done, "integer_operations": an.ops_int, "float_operations": an.ops_float,
+                                "calls_not_followed": dict(sorted(an.unknown_calls.items()))}
+    if an.ops_int + an.ops_float < 20 and table is None:
+        raise AnalysisError(f"N-int: only {an.ops_int + an.ops_float} arithmetic operations were seen in {done} primitives - the analysis no longer reaches the code")
 
 
 def _perp_link(rc: RuleCtx):
